@@ -8,6 +8,7 @@ import Driver.Abi
 import Driver.Tally
 import Driver.Chain
 import Driver.Oracle
+import Driver.Claim
 open Driver
 
 def dispatch (fam : String) : Option (List String → String → Option Res) :=
@@ -23,6 +24,10 @@ def dispatch (fam : String) : Option (List String → String → Option Res) :=
   | "calc" => some runCalc
   | "supply" => some runSupply
   | "nohalt" => some runNoHalt
+  | "nohaltlong" => some runNoHalt
+  | "supplylong" => some runSupply
+  | "deposit" => some runDeposit
+  | "claim" => some runClaim
   | "oracle" => some runOracle
   | "oracle7" => some runOracle7
   | "oracle8" => some runOracle8
